@@ -590,3 +590,30 @@ Definition fill_entries (base step n : N) : list entry := fill_entries_from 0 (N
 Definition ldb_load_entries (es : list entry) : omap := fold_left gen_step es [].
 Definition sorted_entries (es : list entry) : list entry := map entry_of_kv (fold_left rnm_step es []).
 Definition metric_entries_o (es : list entry) (ans : list bool) : metric := mfi_oracle metric0 (rev es) ans.
+
+(* ---------- the reference map after fill_ops (proof/NeedleMapFill.v: [ref_run_fill]) ---------- *)
+Fixpoint fill_ref_from (i : N) (n : nat) (base step : N) (acc : rmap) : rmap :=
+  match n with
+  | O => acc
+  | S n' => fill_ref_from (i + 1) n' base step ((base + i * step, (i + 1, fill_size i)) :: acc)
+  end.
+Definition fill_ref (base step n : N) : rmap := fill_ref_from 0 (N.to_nat n) base step [].
+(* the side conditions of the closed forms, decidable: room in the section, keys within its
+   32-bit span and below 2^64 *)
+Definition fill_ok (batch base step n : N) : bool :=
+  (0 <? step) && (n <=? batch) && (n * step <=? sec_lim + step) && (base + n * step <? two64 + step).
+
+(* a long index file: explicit head entries, a descending run, explicit tail entries *)
+Definition long_entries (head : list entry) (base step n : N) (tail : list entry) : list entry :=
+  head ++ fill_entries base step n ++ tail.
+(* what an index replay should serve for key k: its LAST entry, if that is a live one *)
+Fixpoint last_entry (k : N) (es : list entry) (acc : option entry) : option entry :=
+  match es with
+  | [] => acc
+  | e :: r => last_entry k r (if e_key e =? k then Some e else acc)
+  end.
+Definition replay_lookup (es : list entry) (k : N) : option nval :=
+  match last_entry k es None with
+  | Some e => if negb (e_off e =? 0) && size_is_valid (e_size e) then Some (k, e_off e, e_size e) else None
+  | None => None
+  end.
